@@ -379,6 +379,10 @@ func (p *Policy) sanitize(r io.Reader, w io.Writer) error {
 
 		case html.SelfClosingTagToken:
 
+			// the tokenizer reads what follows <script/> or <style/> as the
+			// raw text of that element, exactly as it does after a start tag
+			mostRecentlyStartedToken = normaliseElementName(token.Data)
+
 			switch normaliseElementName(token.Data) {
 			case `script`:
 				if !p.allowUnsafe {
